@@ -766,6 +766,9 @@ class VacancyMediated(object):
 
         self.thermo.generate(Nthermo, originstates=False)
         self.kinetic.generate(Nthermo + 1, originstates=True)  # now include origin states (for removal)
+        # the kinetic star set is regenerated in place (same object), which VectorStarSet.generate would take as
+        # 'nothing to do': drop the reference so that the vector stars are rebuilt for the new range
+        self.vkinetic.starset = None
         self.vkinetic.generate(self.kinetic)
         # TODO: check the GF calculator against the range in GFstarset to make sure its adequate
         self.GFexpansion, self.GFstarset = self.vkinetic.GFexpansion()
